@@ -333,7 +333,8 @@ def _init_worker():
     fn, _, _ = c05.find_translator(repo)
     conv = repo.func("reuse.convert_dep5._convert_asterisk")
     repl = converter_summary(conv)
-    _STATE = (Transducer(fn), re.compile(pat.pattern, pat.flags), repl)
+    # the matcher as AnnotationsItem applies it: template around the translated glob, compile flags, match method (C05)
+    _STATE = (c05.Matcher(repo), re.compile(pat.pattern, pat.flags), repl)
 
 
 def converter_summary(conv: ast.FunctionDef) -> str:
@@ -362,13 +363,13 @@ def _worker(globs):
             continue
         ref = Lang.from_parts(A, dep5_parts(toks), "dep5")
         converted = pat.sub(repl, g)
-        regex, _ = tr.run(converted)
+        regex = tr.regex_for([converted])
         rt = c05.tokenise(converted)
         if rt is None:
             out.append({"glob": g, "converted": converted, "why": "converted glob ends in an unpaired backslash",
                         "features": [], "explained": False, "witness": None})
             continue
-        impl = Lang.from_regex(regex, 0, A, "match")
+        impl = Lang.from_regex(regex, tr.flags, A, tr.mode or "match")
         d = difference(ref, impl)
         if d is None:
             continue
@@ -385,7 +386,8 @@ def _worker(globs):
             # the recorded classes are sets of GLOBS that change meaning: a glob the frozen defect model already predicts
             # to change meaning is the recorded finding, however the matcher spells its (wrong) language today
             explained = bool(feats) and (difference(impl, model) is None or difference(ref, model) is not None)
-        if not explained and any(f in ("Q", "E") for f in feats):
+        if not explained and any(f in ("Q", "E") for f in feats) and converted == mconv:
+            # (only when the converter itself does what the recorded classes describe: converted == frozen conversion)
             # the deviation is the CONVERTER's (classes Q / E) whenever the converted glob, read as C05 specifies it, already
             # differs from the dep5 glob and the matcher stays within the specified readings of the converted glob - how the
             # matcher spells that language is C05's business, not a new deviation of the conversion
